@@ -516,7 +516,17 @@ func (l *Lexer) shiftEndTag() []byte {
 		break
 	}
 	l.text = l.text[:end]
-	return parse.ToLower(l.r.Shift())
+
+	// lower-case the tag name only, not what may follow it
+	nameEnd := 0
+	for nameEnd < len(l.text) {
+		if c := l.text[nameEnd]; c == ' ' || c == '\t' || c == '\n' || c == '\r' || c == '\f' || c == '/' {
+			break
+		}
+		nameEnd++
+	}
+	parse.ToLower(l.text[:nameEnd])
+	return l.r.Shift()
 }
 
 // shiftXML parses the content of a svg or math tag according to the XML 1.1 specifications, including the tag itself.
